@@ -54,6 +54,14 @@ class ChildCtx:
     def crash_after_ack(self):
         os._exit(0)
 
+    def terminate(self):
+        """The job scheduler's way of stopping a process: SIGTERM at this instant.  With the default disposition the
+        process is gone (reported as a crash); if the code under test has installed a handler, that handler runs here
+        and whatever it raises propagates from this point."""
+        os.kill(os.getpid(), signal.SIGTERM)
+        for _ in range(100):      # let a Python-level handler run
+            pass
+
     def normal_exit(self):
         # What a clean interpreter shutdown does for user-visible state: flush buffered files.
         try:
@@ -206,7 +214,7 @@ def run_lifetime(fn, *args, timeout=120.0):
     code = os.waitstatus_to_exitcode(st)
     if error is not None:
         status = 'harness_error'
-    elif code == 137:
+    elif code in (137, -signal.SIGTERM):
         status = 'crash'
     elif code == 0:
         status = 'exit' if done else 'crash_after_ack'
